@@ -24,7 +24,8 @@ def run(ck, P):
 
     # ------------------------------------------------------------------ 1. eligibility
     ck.rule("C02.1-ELIGIBLE", "R-GUARD: the pipe write in tell_if happens only for a RUNNING or PAUSED module and — for a publish — only with a "
-            "matching subscription; tell_subscribers offers a message only to RUNNING|PAUSED modules for which fetch_sub found a subscription", floor=2)
+            "matching subscription; a direct tell is deliverable whatever its topic; the broadcast pass cannot be aborted by one recipient; "
+            "tell_subscribers offers a message only to RUNNING|PAUSED modules for which fetch_sub found a subscription", floor=4)
     wr = [e for e in ti.calls("write")]
     ck.need(len(wr) == 1 and "pubsub_fd[1]" in S(wr[0].args[0]), "pipe write in tell_if changed shape")
     facts = X.facts(ti, wr[0])
@@ -60,6 +61,19 @@ def run(ck, P):
         fc = X.facts(ts, e)
         okt = okt and has(fc, "m_mod_is(mod, %d)" % LIVE) and any(a.startswith("(sub = fetch_sub(mod, ") and p for (a, p) in fc) and S(e.args[2]) == "mod"
     ck.ob("C02.1-ELIGIBLE", ts.site("publish fan-out"), okt, "tell_if offered under RUNNING|PAUSED and a found subscription: %s" % okt)
+
+    bound = []
+    for ev in P.calls_to("m_map_iterate"):
+        if ev.fn.unit == PS and S(ev.args[0]).endswith("->modules"):
+            for v in cg.pt.vals(ev.args[1], ev.fn):
+                bound.append((v, ev))
+    ck.need(bound, "broadcast pass over c->modules vanished")
+    for (name, ev) in bound:
+        f = P.resolve_ptr(ev.fn, name)
+        rv = rules.returned_values(P, f)
+        ck.ob("C02.1-ELIGIBLE", f.site("broadcast pass not abortable"), rv == {0},
+              "%s is the per-module callback of the broadcast pass in %s and returns %s (m_map_iterate stops at the first non-zero result: one "
+              "recipient's outcome must not cut off the modules behind it)" % (name, ev.fn.name, sorted(rv, key=str)))
 
     # ------------------------------------------------------------------ 2. single channel
     ck.rule("C02.2-CHANNEL", "R-WHO-CALLS: the only write to a module's pubsub pipe is in tell_if; the pipe is read only by process_ps (one read "
